@@ -45,6 +45,8 @@ def product_peps(geometry, vectors) -> Peps:
 
     if isinstance(vectors, Tensor):
         vectors = {site: vectors.copy() for site in geometry.sites()}
+    else:
+        vectors = dict(vectors)  # the loop below replaces entries; do not modify the caller's dictionary
 
     for k, v in vectors.items():
         if v.ndim == 1 and not v.get_legs(axes=0).is_fused():
